@@ -337,6 +337,36 @@ def run(repo: Repo, tier: str) -> Report:
             Z3 = H3[len("item1[mk_p_value["):-2] if H3 else None
             for h, sg in CASES:
                 t3[(h, sg)] = flag_at(yxt, fs.seq, h, sg, H3, Z3) if fs.rhs.key() == "trend" and H3 else fs.rhs.key()
+    # the 3-d driver stores (tau, p, slope, flag) in slots 0..3 of the pixel
+    slots = {}
+    for s_ in yxt.stores:
+        parts = s_.idx_key.split(",")
+        if len(parts) == 3 and parts[2] in "0123":
+            slots.setdefault(parts[2], []).append(s_.rhs.key())
+    if deleg or any("mann_kendall_trend_1d[" in v_ for vs_ in slots.values() for v_ in vs_):
+        want_slots = None
+        oks = all(len(slots.get(str(i_), [])) == 1 and slots[str(i_)][0].startswith(f"item{i_}[mann_kendall_trend_1d[") for i_ in range(4))
+    else:
+        pix3 = None
+        for d_ in yxt.scalars.get("trend", []):
+            pass
+        import re as _re2
+        def _arg_of(text, fn_="mk_score["):
+            i_ = text.find(fn_)
+            if i_ < 0:
+                return None
+            j_, depth = i_ + len(fn_), 1
+            while j_ < len(text) and depth:
+                depth += text[j_] == "["
+                depth -= text[j_] == "]"
+                j_ += 1
+            return text[i_ + len(fn_): j_ - 1]
+        sl = next((a_ for vs_ in slots.values() for v_ in vs_ for a_ in [_arg_of(v_)] if a_), None)
+        want_slots = {"0": f"item1[mk_score[{sl}]]", "2": f"item0[mk_sens_slope[{sl}]]"} if sl else {}
+        oks = bool(sl) and slots.get("0") == [want_slots["0"]] and slots.get("2") == [want_slots["2"]] and len(slots.get("1", [])) == 1 \
+            and slots["1"][0].startswith(f"item0[mk_p_value[mk_z_score[item0[mk_score[{sl}]];mk_variance_s[{sl}]]") and len(slots.get("3", [])) == 1
+    ob("R-MUSTWRITE", "mann_kendall_trend_yxt", "the 3-d driver stores tau, p, slope and the flag in slots 0, 1, 2, 3 of every pixel", oks,
+       f"slot stores: { {k_: [v_[:70] for v_ in vs_] for k_, vs_ in sorted(slots.items())} }", "r[yix, xix, k] = ...")
     ob("R-SIBLING(trend)", "mann_kendall_trend_yxt", "the 3-d driver uses the same decision table as the 1-d driver", deleg or t3 == want_t,
        f"decision table {t3}; required {want_t}; flag stores {[norm_stmt(s_.stmt) for s_ in flag_stores]}", flag_stores[0].stmt if flag_stores else "trend flag (3-d)")
 
@@ -389,5 +419,9 @@ def run(repo: Repo, tier: str) -> Report:
            disp[0].test if disp else "dispatch")
     from ..rules import r_truthy
     r_truthy(rep, repo, "PixelAlgorithms", "mktrend", ["nodata"], "0 is a legitimate nodata value (it is the one the test-suite uses); a truth test silently replaces or drops it")
+    # the nodata attribute of the trend variable is the flag the kernel writes for an all-nodata pixel
+    attr = [st_ for st_ in ast.walk(m) if isinstance(st_, ast.Assign) and "attrs['nodata']" in ast.unparse(st_.targets[0]) and "trend" in ast.unparse(st_.targets[0])]
+    rep.ob("R-BIND", AFILE, "PixelAlgorithms.mktrend", "trend.attrs['nodata'] is the all-nodata flag -2 of the kernel", len(attr) == 1 and ast.unparse(attr[0].value) == "-2",
+           f"{[norm_stmt(a_) for a_ in attr]}", attr[0] if attr else "x.trend.attrs['nodata'] = -2")
     rep.floor("C10 obligations", len(rep.obls), 40)
     return rep
